@@ -15,6 +15,7 @@ from ..ref import codec as ref
 
 ID = 'C07'
 LEVEL = 'fault_enumeration'
+CPU_VERDICT = True       # "terminates promptly": a call ended by the kernel for using up its CPU allowance is a violation here
 ANCHORS = ('_iso8583_to_dict', '_iso8583_to_field', '_pds_to_dict', '_icc_to_dict', '_string_to_pytype', 'IpmReader.__next__',
            'VbsReader.__next__', 'cli_run', 'extract', '_get_de43_fields')
 RULE = ('case = one byte string fed to loads, or one file fed to VbsReader / IpmReader / the two extraction tools, under a '
@@ -163,6 +164,10 @@ def cases(ctx):
             i += 1
             if ctx.mine(i):
                 yield {'kind': 'valid_but_awkward', 'enc': enc, 'blocked': blocked}
+    for enc in ('latin_1', 'cp500'):
+        i += 1
+        if ctx.mine(i):
+            yield {'kind': 'cpu_guard', 'enc': enc}
 
 
 def lib_error(ctx, which):
@@ -185,6 +190,7 @@ def outcome(ctx, kind, val, which):
 def judge_loads(ctx, data, cid, enc, hexbm, how, enumerated):
     cfg = msgwork.cfg_of(cid)
     budget = sentinel.budget_for(len(data))
+    ctx.crumb({'kind': 'one', 'data': hx(data), 'cfg': cid, 'enc': enc, 'hex': hexbm})
     kind, val = ctx.call(ctx.iso.loads, data, encoding=enc, iso_config=cfg, hex_bitmap=hexbm, budget=budget)
     ctx.count('loads calls')
     cls, mech = outcome(ctx, kind, val, 'loads')
@@ -259,6 +265,8 @@ def judge(ctx, case):
         return
     if kind == 'file':
         return judge_file(ctx, case)
+    if kind == 'cpu_guard':
+        return judge_cpu_guard(ctx, case)
     if kind == 'process':
         return judge_process(ctx, case)
     if kind == 'scaling':
@@ -344,6 +352,7 @@ def judge_file(ctx, case):
         mutants.append((how, m2))
     ctx.seen('file shapes', '%s/%s' % ('1014' if blocked else 'vbs', enc))
     for idx, (how, fdata) in enumerate(mutants):
+        ctx.crumb({'kind': 'onefile', 'data': hx(fdata), 'enc': enc, 'blocked': blocked})
         for which in ('VbsReader', 'IpmReader'):
             def body():
                 if which == 'VbsReader':
@@ -420,6 +429,66 @@ def judge_awkward(ctx, case):
         run_tools(ctx, fdata, enc, blocked, 'valid_but_awkward:' + name)
         ctx.count('valid but awkward files run through the tools: ' + name)
     ctx.case_done(['awkward', enc, blocked])
+
+
+def de43_shapes():
+    """Merchant name/location values that do not fit the configured layout in ways a pattern matcher has to work at: long
+    unbroken runs, runs with too few or too many separators, blanks and separators only, right layout with a wrong tail."""
+    out = []
+    for n in (10, 22, 24, 30, 40, 60, 99):
+        out += ['A' * n, 'A' * (n - 1) + '\\', '\\' + 'A' * (n - 1), ('AB ' * n)[:n], ('A ' * n)[:n], ' ' * n, '\\' * n,
+                ('A\\' * n)[:n], 'A' * (n // 2) + ' ' * (n - n // 2), ' ' * (n // 2) + 'A' * (n - n // 2),
+                ('A' * (n // 2) + '\\' + 'B' * n)[:n], ('A' * (n // 3) + '\\' + 'B' * (n // 3) + '\\' + 'C' * n)[:n]]
+    for k in range(0, 21):
+        out.append('SHOP NAME\\1 HIGH ST\\TOWN\\' + 'X' * k)
+        out.append(('N' * 30 + '\\' + 'A' * 30 + '\\' + 'S' * 20 + '\\' + 'X' * k)[:99])
+    out += ['.*+?()[]{}|^$' * 5, 'A' * 50 + '\\\\\\' + 'B' * 40, 'SHOP\\HIGH ST\\TOWN\\ABCDEFGHIJNSW  S', 'SHOP\\HIGH ST\\TOWN\\ABCDEFGHIJNSWAUS']
+    return [v for v in out if 0 < len(v) <= 99]
+
+
+def judge_cpu_guard(ctx, case):
+    """Inputs whose decoding may be spent inside C code (pattern matching), where no Python line is executed and the step
+    budget sees nothing: decoded in a child process under a CPU-time allowance (see cpuguard.py)."""
+    import json
+    from .. import env, cpuguard
+    enc = case['enc']
+    cfg = msgwork.cfg_of('packaged')
+    items = []
+    for v in de43_shapes():
+        try:
+            v.encode(enc)
+        except UnicodeError:
+            continue
+        for hexbm in (False, True):
+            wire = ref.encode({'MTI': '1240', 'DE2': '4444555566667777', 'DE43': v}, cfg, enc, hexbm)
+            items.append({'cfg': 'packaged', 'enc': enc, 'hex': hexbm, 'data': hx(wire), 'de43': v})
+    if case.get('only') is not None:
+        items = [items[case['only']]]
+    if not ctx.tmpdir:
+        ctx.tmpdir = tempfile.mkdtemp(prefix='vmon-c07-')
+    path = os.path.join(ctx.tmpdir, 'cpu_%s.json' % enc)
+    with open(path, 'w') as f:
+        json.dump(items, f)
+    e = dict(os.environ, PYTHONPATH=env.VERIF_DIR, PYTHONDONTWRITEBYTECODE='1', PYTHONWARNINGS='ignore')
+    e.pop('CARDUTIL_CONFIG', None)
+    allowance = 60          # CPU seconds for a batch that needs well under one
+    status, p = cpuguard.run([env.PYTHON, '-B', '-m', 'vmon.cpuchild', path], env=e, cwd=env.VERIF_DIR, cpu_seconds=allowance)
+    ctx.case_done(['cpu_guard', enc], nontrivial=True, enumerated=True, n=len(items))
+    lines = p.stdout.split('\n')
+    at = [int(ln.split()[1]) for ln in lines if ln.startswith('at ')]
+    ctx.count('inputs decoded in a child under a CPU allowance', len([ln for ln in lines if ln.startswith(('ok ', 'lib ', 'escape '))]))
+    for ln in lines:
+        if ln.startswith('escape '):
+            _, idx, name = ln.split()
+            ctx.violation('loads:escape:%s@child' % name, {'case': dict(case, only=int(idx)), 'de43': items[int(idx)]['de43']})
+    if status == 'wall':
+        ctx.inconclusive_because('the CPU-guarded child hit the wall-clock watchdog')
+    elif status == 'cpu':
+        idx = at[-1] if at else 0
+        ctx.violation('loads:cpu_allowance_used_up_inside_one_call', {'case': dict(case, only=idx), 'cpu_seconds': allowance,
+                                                                       'de43': items[idx]['de43'], 'inputs_before_it': idx})
+    elif 'done' not in lines:
+        ctx.inconclusive_because('the CPU-guarded child ended early: %r' % (p.stderr[-300:],))
 
 
 def judge_process(ctx, case):
@@ -550,6 +619,8 @@ def require(m):
     for need in ('loads outcome: returned', 'loads outcome: library_error'):
         if not c.get(need):
             reasons.append('never observed: ' + need)
+    if c.get('inputs decoded in a child under a CPU allowance', 0) < 100 and not m['violations']:
+        reasons.append('fewer than 100 inputs decoded in the CPU-guarded child')
     if not c.get('tool runs: mci_ipm_to_csv') or not c.get('tool runs: mideu extract'):
         reasons.append('tools never run')
     if not c.get('command-line processes run: mci_ipm_to_csv') or not c.get('command-line processes run: mideu extract'):
